@@ -9,6 +9,7 @@ pub mod c04;
 pub mod c05;
 pub mod c06;
 pub mod c07;
+pub mod c08;
 pub mod c09;
 pub mod c10;
 pub mod c11;
@@ -25,5 +26,5 @@ pub mod c20;
 pub type RunFn = fn(&mut Ctx, Option<&Path>);
 
 pub fn registry() -> Vec<(&'static str, RunFn)> {
-    vec![("C01", c01::run_all as RunFn), ("C02", c02::run_all as RunFn), ("C03", c03::run_all as RunFn), ("C04", c04::run_all as RunFn), ("C05", c05::run_all as RunFn), ("C06", c06::run_all as RunFn), ("C07", c07::run_all as RunFn), ("C09", c09::run_all as RunFn), ("C10", c10::run_all as RunFn), ("C11", c11::run_all as RunFn), ("C12", c12::run_all as RunFn), ("C13", c13::run_all as RunFn), ("C14", c14::run_all as RunFn), ("C15", c15::run_all as RunFn), ("C16", c16::run_all as RunFn), ("C17", c17::run_all as RunFn), ("C18", c18::run_all as RunFn), ("C19", c19::run_all as RunFn), ("C20", c20::run_all as RunFn)]
+    vec![("C01", c01::run_all as RunFn), ("C02", c02::run_all as RunFn), ("C03", c03::run_all as RunFn), ("C04", c04::run_all as RunFn), ("C05", c05::run_all as RunFn), ("C06", c06::run_all as RunFn), ("C07", c07::run_all as RunFn), ("C08", c08::run_all as RunFn), ("C09", c09::run_all as RunFn), ("C10", c10::run_all as RunFn), ("C11", c11::run_all as RunFn), ("C12", c12::run_all as RunFn), ("C13", c13::run_all as RunFn), ("C14", c14::run_all as RunFn), ("C15", c15::run_all as RunFn), ("C16", c16::run_all as RunFn), ("C17", c17::run_all as RunFn), ("C18", c18::run_all as RunFn), ("C19", c19::run_all as RunFn), ("C20", c20::run_all as RunFn)]
 }
